@@ -723,10 +723,14 @@ def _temp_lim_for(db, ml):
             continue
         for x in walk(f.body):
             if x.get("kind") == "BinaryOperator" and x.get("opcode") == "=" and canon(kids(x)[0]).replace("this->", "") == "temp_lim_":
+                env = {"miter_limit_": ml}
+                for y in walk(kids(x)[1]):
+                    if y.get("kind") == "DeclRefExpr" and "miter" in (y.get("referencedDecl", {}).get("name") or "").lower():
+                        env[y["referencedDecl"]["name"]] = ml          # a constructor parameter the member is initialised from
                 try:
-                    v = Interp(db, {"miter_limit_": ml}, []).ev(kids(x)[1])
-                except Unsupported as e:
-                    raise AnalysisBroken("JOIN.dispatch: cannot evaluate `%s`: %s" % (canon(x)[:80], e))
+                    v = Interp(db, env, []).ev(kids(x)[1])
+                except Unsupported:
+                    continue                                           # not a function of the limit alone: judged by LIMIT.rederived / DBU
                 vals.append(float(getattr(v, "v", v)))
     if not vals:
         # no assignment (e.g. the value is set in a constructor's initialiser list): the comparison site is judged on its own, with the
